@@ -96,6 +96,9 @@ def run(rep, db, std=True):
     # ---------------------------------------------------------------- the key
     # storage is a static or a thread_local! key; a plain `const X: RoundingMode = ..` is a value, not a store
     keys = [it for it in key_items(db) if '::__RUST_STD_INTERNAL_VAL' not in it['id'] and (it['kind'].startswith('Static') or 'LocalKey<' in it['ty'] or 'Cell<' in it['ty'])]
+    # items the thread_local! expansion nests under its key (`const { .. }` initialisers: __RUST_STD_INTERNAL_INIT, the backing statics) belong to that key
+    lk = [k['id'] for k in keys if 'LocalKey<' in k['ty']]
+    keys = [k for k in keys if not any(k['id'].startswith(p + '::') for p in lk)]
     key_ids = [k['id'] for k in keys]
     rep.ob('R-TLS-KEY', '%s;exactly-one-store' % cfg, len(keys) == 1,
            'items whose type mentions RoundingMode: %s' % [(k['id'], k['ty']) for k in keys])
@@ -121,6 +124,21 @@ def run(rep, db, std=True):
         lits += rm_literals(key['init'])
     if key.get('value') and isinstance(key['value'], dict) and key['value'].get('adt') == RM_ADT:
         lits.append(key['value'].get('variant'))
+    # `thread_local!(static K: .. = const { .. })`: the initial value is an evaluated constant nested under the key
+    def _value_lits(v):
+        if isinstance(v, dict):
+            if v.get('adt') == RM_ADT and v.get('variant') is not None:
+                lits.append(v['variant'])
+            for x in v.values():
+                _value_lits(x)
+        elif isinstance(v, list):
+            for x in v:
+                _value_lits(x)
+    for it in db.items.values():
+        if it['id'].startswith(key['id'] + '::'):
+            _value_lits(it.get('value'))
+            if it.get('init'):
+                lits += rm_literals(it['init'])
     names = sorted(set(variant_name(db, i) for i in lits))
     rep.ob('R-TLS-INIT', '%s;initial-mode' % cfg, names == ['RoundHalfEven'],
            'RoundingMode literals in the initialiser of %s: %s (must be exactly RoundHalfEven)' % (key['id'], names), site=span_str(key.get('span')))
